@@ -199,7 +199,10 @@ Inductive event :=
 | CompleteResponder (r : N)    (* the remote party sends a valid fresh initiation (its index r) *)
 | Recv (sid : N)               (* the remote party sends data under its session sid, fresh counter *)
 | Send                         (* one packet for the peer enters through the TUN *)
-| Tick (d : N).                (* time passes *)
+| Tick (d : N)                 (* time passes *)
+| Forged (sid : N)             (* a transport message with the device index of session sid and a fresh counter
+                                  that does NOT authenticate (corrupted tag / garbage payload / wrong key) *)
+| Replay (sid : N).            (* the remote party's last message under session sid, sent again unchanged *)
 
 Record out := mkOut {
   o_acc : bool;        (* handshake completed / transport message accepted *)
@@ -269,6 +272,14 @@ Definition do_recv (s : state) (sid : N) : state * out :=
       end
   end.
 
+(* A transport message that fails authentication: RoutineReceiveIncoming may queue it (index
+   honoured, key young enough), RoutineDecryption sets elem.packet = nil, RoutineSequentialReceiver
+   skips it before anything else ("decryption failed: continue").  A replayed message: it was either
+   refused when first sent (index not honoured / key too old -- both permanent) or accepted, and then
+   the replay filter of the same keypair rejects it ("continue" before ReceivedWithKeypair).  Either
+   way nothing happens: no promotion, no TUN write, no timers, nothing sent. *)
+Definition do_unauthentic (s : state) (sid : N) : state * out := (s, out0).
+
 Definition do_send (s : state) : state * out :=
   let '(s1, sent, i) := send_staged (set_staged s (staged s + 1)) in
   (s1, mkOut false sent i false false).
@@ -282,6 +293,8 @@ Definition step (s : state) (e : event) : state * out :=
   | Recv sid => do_recv s sid
   | Send => do_send s
   | Tick d => (set_now s (now s + d), out0)
+  | Forged sid => do_unauthentic s sid
+  | Replay sid => do_unauthentic s sid
   end.
 
 (* The property's composite event "handshake completed as initiator". *)
